@@ -27,6 +27,10 @@ pub const T_C10: u32 = 8;
 pub const T_C11: u32 = 16;
 pub const T_C20: u32 = 32;
 
+pub fn lowest(t: u32) -> u32 {
+    t & t.wrapping_neg()
+}
+
 pub fn tag_name(t: u32) -> &'static str {
     match t {
         T_C01 => "C01",
@@ -84,7 +88,7 @@ pub struct MapCase {
     pub ops: Vec<MOp>,
 }
 
-pub const LEAF_FLAG_BITS: u64 = 0x0f7e | (0x7ff << 52) | (1 << 63); // W U PWT PCD A D G b9-11, 52-62, NX (PRESENT added)
+pub const LEAF_FLAG_BITS: u64 = 0x0ffe | (0x7ff << 52) | (1 << 63); // W U PWT PCD A D PAT(4KiB only; bit 7) G b9-11, 52-62, NX (PRESENT added)
 pub const PARENT_FLAG_BITS: u64 = 0x0e7e | (0x7ff << 52) | (1 << 63); // no bit 7 (HUGE), no bit 8
 
 fn flag_bits(domain: u64) -> impl Strategy<Value = u64> {
@@ -732,7 +736,7 @@ where
                     after_err = true;
                 }
                 (got, exp) => {
-                    let tag = if *exp == Exp::Ok { T_C01 } else { T_C02 };
+                    let tag = if *exp == Exp::Ok { T_C01 | T_C02 } else { T_C02 };
                     fail!(tag, "{}: returned {:?}, the documentation defines {:?} for this state", what, got, exp);
                 }
             }
@@ -802,7 +806,7 @@ where
                 (State::InsideHuge { .. }, Err(e)) if e == "ParentEntryHugePage" => after_err = true,
                 (State::SubTable, Err(_)) => after_err = true,
                 (st, got) => {
-                    let tag = if matches!(st, State::Mapped { .. }) { T_C01 } else { T_C02 };
+                    let tag = if matches!(st, State::Mapped { .. }) { T_C01 | T_C02 } else { T_C02 };
                     fail!(tag, "{}: returned {:?}", what, got);
                 }
             }
@@ -856,7 +860,7 @@ where
                     fail!(T_C02, "{}: reported success for a {} mapping that does not exist (the entry references a lower-level table)", what, ["4KiB", "2MiB", "1GiB"][(lvl - 1) as usize]);
                 }
                 (st, got) => {
-                    let tag = if matches!(st, State::Mapped { .. }) { T_C01 } else { T_C02 };
+                    let tag = if matches!(st, State::Mapped { .. }) { T_C01 | T_C02 } else { T_C02 };
                     fail!(tag, "{}: returned {:?}", what, got);
                 }
             }
@@ -941,7 +945,7 @@ where
                 (Exp::Huge, Err(e)) if e == "ParentEntryHugePage" => after_err = true,
                 (Exp::AnyErr, Err(_)) => after_err = true,
                 (exp, got) => {
-                    fail!(if exp == Exp::Ok { T_C01 } else { T_C02 }, "{}: returned {:?}", what, got);
+                    fail!(if exp == Exp::Ok { T_C01 | T_C02 } else { T_C02 }, "{}: returned {:?}", what, got);
                 }
             }
             outcome_class = exp as u8;
@@ -1129,7 +1133,7 @@ where
         (State::InsideHuge { .. }, Err(e)) if e == "ParentEntryHugePage" => {}
         (State::SubTable, Err(_)) => {}
         (State::SubTable, Ok(f)) => fail!(T_C02, "{}: reported success (frame {:#x}) for a mapping of a size that does not exist (the entry references a lower-level table)", what, f),
-        (st, got) => fail!(if matches!(st, State::Mapped { .. }) { T_C01 } else { T_C02 }, "{}: returned {:x?}", what, got),
+        (st, got) => fail!(if matches!(st, State::Mapped { .. }) { T_C01 | T_C02 } else { T_C02 }, "{}: returned {:x?}", what, got),
     }
     Ok(format!("{:x?}", r))
 }
@@ -1214,10 +1218,10 @@ where
                 });
                 let (a, b, lvl, is_empty) = match found {
                     Some(x) => x,
-                    None => fail!(T_C10, "{}: deallocated frame {:#x}, which is not a level-1..3 page table of this hierarchy (a huge-page frame, data frame or foreign frame)", what, frame),
+                    None => fail!(T_C10 | T_C01 | T_C09, "{}: deallocated frame {:#x}, which is not a level-1..3 page table of this hierarchy (a huge-page frame, data frame or foreign frame)", what, frame),
                 };
                 if !is_empty {
-                    fail!(T_C10, "{}: deallocated the level-{} table at frame {:#x}, which still holds an entry", what, lvl, frame);
+                    fail!(T_C10 | T_C01, "{}: deallocated the level-{} table at frame {:#x}, which still holds an entry", what, lvl, frame);
                 }
                 if empty || !(a < re && rs < b) {
                     fail!(T_C10, "{}: deallocated the level-{} table at frame {:#x} covering [{:#x},{:#x}), which does not overlap the range", what, lvl, frame, a, b);
@@ -1359,7 +1363,14 @@ pub fn p0_of(case: &MapCase) -> u64 {
 }
 
 pub fn run_backend(case: &MapCase, backend: Backend, enabled: u32) -> BackendRun {
-    umh::install();
+    run_backend_opts(case, backend, enabled, true)
+}
+
+/// `signals = false`: do not install the trap handler (MappedPageTable backend under libFuzzer).
+pub fn run_backend_opts(case: &MapCase, backend: Backend, enabled: u32, signals: bool) -> BackendRun {
+    if signals {
+        umh::install();
+    }
     let m = mem();
     m.reset();
     cpu().reset();
@@ -1554,9 +1565,9 @@ pub fn run_case(case: &MapCase, enabled: u32, obs: &mut Obs) -> CaseResult {
                 obs.label(format!("inconclusive:{}", f.msg.chars().take(40).collect::<String>()));
                 stopped = true;
             } else if f.tag & enabled != 0 {
-                return Err(format!("[{}] {}", tag_name(f.tag), f.msg));
+                return Err(format!("[{}] {}", tag_name(lowest(f.tag & enabled)), f.msg));
             } else {
-                obs.label(format!("history-stopped-by-{}-oracle-on-{:?}", tag_name(f.tag), b));
+                obs.label(format!("history-stopped-by-{}-oracle-on-{:?}", tag_name(lowest(f.tag)), b));
                 stopped = true;
             }
         }
